@@ -37,6 +37,9 @@ func runRelayer(c RelCase, id string) Outcome {
 		anyRejected := false
 		for ti, r := range results {
 			o.Classes = append(o.Classes, r.kind)
+			if r.kind == "vote" && w.elections > 0 {
+				w.nt["vote-after-election"] = true
+			}
 			ok := r.code == 0
 			if !ok {
 				anyRejected = true
@@ -50,7 +53,7 @@ func runRelayer(c RelCase, id string) Outcome {
 			}
 			// attribute the disagreement to the property it belongs to
 			votedKind := r.voted
-			if (id == "C02" && votedKind) || (id == "C16" && !votedKind) || r.kind == "accept" {
+			if (id == "C02" && votedKind) || (id == "C16" && !votedKind) || (id == "C01" && votedKind && r.kind == "vote") || (r.kind == "accept" && id != "C01") {
 				sig := "valid-message-rejected/" + r.kind
 				if !want {
 					sig = "accepted/" + r.reason
@@ -116,7 +119,9 @@ func runRelayer(c RelCase, id string) Outcome {
 	for k := range w.nt {
 		o.Classes = append(o.Classes, k)
 	}
-	if id == "C02" {
+	if id == "C01" {
+		o.NonTrivial = w.nt["vote-after-election"]
+	} else if id == "C02" {
 		o.NonTrivial = len(w.history) > 0 && (w.nt["reuse"] || w.nt["postfail"])
 	} else {
 		o.NonTrivial = w.nt["election-join+leave"] || w.nt["removal-refused"] || (w.elections > 0 && w.nt["registration"])
